@@ -14,6 +14,94 @@ def have_runner_sources():
     return os.path.exists(os.path.join(FAM.runner_dir, 'build.sh')) and os.path.exists(os.path.join(FAM.coq, 'Extract', 'Extract.v'))
 
 
+BASE_TARGETS = ['Thrift/Len.vo', 'Thrift/Async.vo', 'Proofs/PrimP.vo', 'Proofs/HeaderP.vo', 'Proofs/RoundtripP.vo', 'Proofs/LenP.vo']
+
+
+def coq_make_gen(targets, timeout=1500):
+    """builds the .vo files of the base library this family imports (not the whole main development, which
+    belongs to other properties), then the family targets"""
+    with core.Lock('coq_main'):
+        if not os.path.exists(os.path.join(core.COQ, 'Makefile')):
+            core.sh(['coq_makefile', '-f', '_CoqProject', '-o', 'Makefile'], cwd=core.COQ)
+        rc, out = core.sh(['timeout', str(timeout), 'make', '-j8'] + BASE_TARGETS, cwd=core.COQ, timeout=timeout + 30)
+    if rc != 0:
+        return False, out
+    with core.Lock('coq_gen'):
+        mk = os.path.join(FAM.coq, 'Makefile')
+        if not os.path.exists(mk) or os.path.getmtime(os.path.join(FAM.coq, '_CoqProject')) > os.path.getmtime(mk):
+            core.sh(['coq_makefile', '-f', '_CoqProject', '-o', 'Makefile'], cwd=FAM.coq)
+        rc, out = core.sh(['timeout', str(timeout), 'make', '-j8'] + targets, cwd=FAM.coq, timeout=timeout + 30)
+    return rc == 0, out
+
+
+def proof_gate_gen(prop):
+    """core.proof_gate for this family, with the targeted base build"""
+    import re
+    res = dict(ok=False, obligations=0, discharged=0, theorems=[], axioms=[], failed=None, log='')
+    vfile = os.path.join(FAM.coq, 'Properties', prop + '.v')
+    src = open(vfile, encoding='utf-8').read()
+    thms = re.findall(r'^(?:Theorem|Corollary)\s+(\w+)', src, flags=re.M)
+    res['theorems'] = thms
+    res['obligations'] = len(thms)
+    ok, log = coq_make_gen(['Properties/%s.vo' % prop])
+    res['log'] = log[-6000:]
+    if not ok:
+        m = re.findall(r'File "\./([^"]+)", line (\d+)', log)
+        res['failed'] = ('%s:%s' % m[-1]) if m else 'make failed'
+        em = re.search(r'Error:(.*?)(?:\n\n|\Z)', log, flags=re.S)
+        res['error'] = (em.group(1).strip()[:600] if em else log[-600:])
+        return res
+    gdir = os.path.join(core.CACHE, 'gate')
+    os.makedirs(gdir, exist_ok=True)
+    gfile = os.path.join(gdir, 'gen_' + prop + '.v')
+    open(gfile, 'w').write(src)
+    with core.Lock('coq_gen'):
+        rc, out = core.sh(['timeout', '600', 'coqc', '-Q', core.COQ, 'PV', '-Q', FAM.coq, 'PVGen', '-w', '-notation-overridden', gfile],
+                          cwd=gdir, timeout=630)
+    if rc != 0:
+        res['failed'] = 'Properties/%s.v' % prop
+        res['error'] = out[-600:]
+        return res
+    closed = out.count('Closed under the global context')
+    axioms = []
+    for blk in re.findall(r'Axioms:\n((?:.+\n?)+?)(?:\n|\Z)', out):
+        for ln in blk.splitlines():
+            mm = re.match(r'^(\S+)\s*:', ln)
+            if mm:
+                axioms.append(mm.group(1))
+    res['axioms'] = sorted(set(axioms))
+    bad_ax = [a for a in res['axioms'] if a not in core.AXIOM_ALLOW]
+    n_print = len(re.findall(r'^Print Assumptions', src, flags=re.M))
+    forb = core.grep_forbidden(FAM)
+    if bad_ax:
+        res['failed'] = 'axioms not in allowlist: ' + ', '.join(bad_ax)
+    elif forb:
+        res['failed'] = 'forbidden vernacular: ' + '; '.join(forb[:5])
+    elif n_print < len(thms):
+        res['failed'] = 'a theorem without Print Assumptions'
+    elif closed + len(re.findall(r'Axioms:', out)) < n_print:
+        res['failed'] = 'missing Print Assumptions output'
+    else:
+        res['ok'] = True
+        res['discharged'] = len(thms)
+    return res
+
+
+def build_runner_gen():
+    with core.Lock('runner_gen'):
+        ok, log = coq_make_gen(['Extract/Extract.vo'])
+        if not ok:
+            return False, log
+        ml = os.path.join(FAM.coq, 'model.ml')
+        srcs = [ml] + [os.path.join(FAM.runner_dir, f) for f in os.listdir(FAM.runner_dir) if f.endswith('.ml')]
+        srcs.append(os.path.join(core.ROOT, 'model_runner', 'util.ml'))
+        if (not os.path.exists(FAM.runner)) or any(os.path.getmtime(x) > os.path.getmtime(FAM.runner) for x in srcs):
+            rc, out = core.sh(['sh', os.path.join(FAM.runner_dir, 'build.sh')], timeout=900)
+            if rc != 0:
+                return False, out
+    return True, ''
+
+
 def gate_and_runner(chk, prop):
     """translator + proof gate + model runner.  Returns (gate or None, runner path or None)"""
     gate, runner = None, None
@@ -21,7 +109,7 @@ def gate_and_runner(chk, prop):
         ok, out = core.regen(FAM)
         if not ok:
             chk.violation('translator failed: ' + out.strip()[-400:], dict(kind='translator', output=out[-2000:]), no_input=True)
-        gate = core.proof_gate(prop, FAM)
+        gate = proof_gate_gen(prop)
         chk.cov['obligations'] = gate['obligations']
         chk.cov['discharged'] = gate['discharged']
         chk.cov['theorems'] = gate['theorems']
@@ -34,7 +122,8 @@ def gate_and_runner(chk, prop):
     else:
         chk.cov['checker_cmd'] = 'none yet: no fam/gen/coq/Properties/%s.v (validation only)' % prop
     if have_runner_sources():
-        ok, log = core.build_runner(FAM)
+        ok, out = core.regen(FAM) if gate is None else (True, '')
+        ok, log = build_runner_gen()
         if ok and os.path.exists(FAM.runner):
             runner = FAM.runner
         elif gate is not None and gate['ok']:
